@@ -72,6 +72,7 @@ def check_case(ctx, case):
         # reserved words must do so whatever else is switched on
         for r in opts["reserved"]:
             src += "hostname %s\n description link to %s and %s-x\n" % (r, r, r)
+            src += "password %s\nsnmp-server community %s ro\n username %s secret 5 %s\n" % (r, r, r, r)
     combined = run_one(nc, opts, feats, src, undo)
     chained = src
     for f in ORDER:
